@@ -57,7 +57,7 @@ CLAIMS.update({
 CLAIMS.update({
  "C10": ("P-VAR arm analysis of the comparison methods (variant-pair states, operand provenance), opcode->callee dispatch table, integer-exactness dataflow",
          "R10a: each of try_gt/ge/lt/le compares with its own operator on (self, rhs) and the four siblings accept the same variant pairs; "
-         "R10b: Op::resolve's opcode->method table and the `!=` negation; R10c: two integers are compared as i64, never through f64.", "§4 C10"),
+         "R10b: Op::resolve's opcode->method table and the `!=` negation; R10c: two integers are compared as i64, never through f64; R10d exact float equality; R10e no total order (total_cmp) in the comparison methods.", "§4 C10"),
  "C11": ("P-VAR arm analysis of try_add/sub/mul/div/rem: operator kind, operand order/casts per variant pair, must-pass zero tests, NaN funnel",
          "R11a-e: wrapping_* on the integer arm and no checked i64 arithmetic; f64 BinOps of the method's own kind with IntToFloat on the integer side; "
          "all float results go through float_result; Div/Rem only after the divisor's zero tests; repeat count guarded.", "§4 C11"),
@@ -72,7 +72,7 @@ CLAIMS.update({
          "`ok, err =` and its result carry the defined values, `ok` stored before `err` in both arms; the stored default is default_value() of the expression type and is included in ok's type; default_value pairs each kind with a literal of that kind.", "§4 C08"),
  "C12": ("effect pairing + join taint (shared with C01), opcode->method agreement of constant folding, who-may-consume table for resolve_constant",
          "R12a-e: constant knowledge is invalidated wherever values are written, dropped at joins, folded with the same methods as at run time, never given to "
-         "iterating closure parameters, and consumed only by reviewed sites.", "§4 C12"),
+         "iterating closure parameters, and consumed only by reviewed sites; R12f-i: state order of the assigned constant, path assignments, who-may-produce constants, no field-wise Details update.", "§4 C12"),
 })
 
 CLAIMS.update({
@@ -97,7 +97,7 @@ CLAIMS.update({
  "C32": ("recursion-guard check: dominance of the membership test over the recursive call + SCC analysis of the local call graph",
          "R32a parse_alias tests alias_stack before descending (hit => Err, miss => push); R32b no recursive cycle bypasses parse_alias. Only the cycle-rejection clause.", "§4 C32"),
  "C33": ("expression-tree extraction of Span::new arguments: unchecked-subtraction and character-vs-byte unit taint; consumer check of Formatter::fmt",
-         "R33a no raw subtraction into Span::new outside a reviewed site; R33b Formatter::fmt cannot panic; R33c no character-unit quantity becomes a byte offset. Found and fixed the template-span defect.", "§4 C33"),
+         "R33a no raw subtraction into Span::new outside a reviewed site; R33b Formatter::fmt and its helpers have no unwrap/expect/indexing; R33c no character-unit quantity becomes a byte offset. Found and fixed the template-span defect.", "§4 C33"),
 })
 
 CLAIMS.update({
